@@ -29,7 +29,7 @@ if verified:
                          "first_violation": next((l.strip()[:300] for l in out.splitlines() if l.strip().startswith("kind=")), "")}
         if rc == 1:
             break
-dst = os.path.join(VERIF, "seeded", "%s-%s%s" % (prop, {"seed": "", "seed2": "r2", "seed3": "r3", "seed4": "r4", "seed5": "r5", "seed6": "r6", "seed7": "r7", "seed8": "r8", "seed9": "r9", "seed10": "r10", "seed11": "r11", "seed12": "r12", "seed13": "r13"}.get(rnd, rnd), m))
+dst = os.path.join(VERIF, "seeded", "%s-%s%s" % (prop, {"seed": "", "seed2": "r2", "seed3": "r3", "seed4": "r4", "seed5": "r5", "seed6": "r6", "seed7": "r7", "seed8": "r8", "seed9": "r9", "seed10": "r10", "seed11": "r11", "seed12": "r12", "seed13": "r13", "seed14": "r14"}.get(rnd, rnd), m))
 os.makedirs(dst, exist_ok=True)
 shutil.copy(patch, os.path.join(dst, "patch.diff"))
 shutil.copy(demo, os.path.join(dst, "demo_test.go"))
